@@ -6,7 +6,7 @@ import ast
 import collections
 import itertools
 import math
-from typing import Callable, Mapping, Sequence, Tuple
+from typing import Callable, Collection, Mapping, Sequence, Tuple
 
 import sympy
 import sympy.parsing
@@ -27,6 +27,46 @@ def _get_range_start_end(rng: ast.Call) -> Tuple[ast.AST, ast.AST]:
         return tuple(rng.args)
 
     raise NotImplementedError(f"Cannot parse range with arg count of {len(rng.args)}")
+
+
+def _is_boolean_valued(node: ast.AST) -> bool:
+    """The node evaluates to True or False and to nothing else, whatever its variables are."""
+    if isinstance(node, ast.Constant):
+        return isinstance(node.value, bool)
+    if isinstance(node, ast.Compare):
+        return True
+    if isinstance(node, ast.UnaryOp):
+        return isinstance(node.op, ast.Not)
+    if isinstance(node, ast.BoolOp):
+        return all(_is_boolean_valued(value) for value in node.values)
+    return False
+
+
+def _truth_tested_nodes(root: ast.AST) -> Collection[ast.AST]:
+    """Expressions of which only the truth value is used, or nothing at all.
+
+    `x and True` is x or True, and `x and not x` is x or False: and/or evaluate to one of their
+    operands. They may only be replaced by something with the same truth value where the value
+    itself cannot be observed.
+    """
+    tested = []
+    for node in core.walk(root, (ast.If, ast.While, ast.IfExp, ast.Assert)):
+        tested.append(node.test)
+    for node in core.walk(root, ast.comprehension):
+        tested.extend(node.ifs)
+    for node in core.walk(root, ast.UnaryOp(op=ast.Not)):
+        tested.append(node.operand)
+    for node in core.walk(root, ast.Expr):
+        tested.append(node.value)
+
+    truth_tested = set()
+    while tested:
+        node = tested.pop()
+        truth_tested.add(node)
+        if isinstance(node, ast.BoolOp):
+            tested.extend(node.values)
+
+    return truth_tested
 
 
 def _parse_sympy_expr(expression):
@@ -271,7 +311,13 @@ def simplify_boolean_expressions(source: str) -> str:
         comparators=[object],
     )
 
+    truth_tested = _truth_tested_nodes(root)
+
     for node in core.walk(root, ast.BoolOp):
+        if node not in truth_tested and not _is_boolean_valued(node):
+            # The value of the expression may be one of its operands, and it is used
+            continue
+
         if isinstance(node.op, (ast.And, ast.Or)):
             # Find opposite expressions
             expression_conditions = collections.defaultdict(set)
@@ -640,10 +686,20 @@ def simplify_boolean_expressions(source: str) -> str:
 @processing.fix
 def simplify_boolean_expressions_symmath(source: str) -> str:
     root = core.parse(source)
+    truth_tested = _truth_tested_nodes(root)
     for node in core.walk(root, (ast.BoolOp, ast.UnaryOp)):
+        value_is_used = node not in truth_tested
+        if value_is_used and not _is_boolean_valued(node):
+            # The value of the expression may be one of its operands
+            continue
+
         try:
             simplified = _simplify_ast_boolop(node)
         except ValueError:
+            continue
+
+        if value_is_used and not _is_boolean_valued(simplified):
+            # `not (x or not y)` is a bool, `y and not x` may be y
             continue
 
         node_complexity = sum(len(x.values) for x in core.walk(node, ast.BoolOp))
